@@ -491,6 +491,12 @@ func (w *e2eWorld) build() {
 	if ch.Chance(1, 2, "no jitter") {
 		b.Jitter = -1
 	}
+	// the application may drive reconnection itself: no built-in retries, Connect called again on
+	// the same Connection whenever it returns
+	appLoop := ch.Chance(1, 3, "application-driven reconnection")
+	if appLoop {
+		b.MaxRetries = -1
+	}
 	for _, cl := range w.clients {
 		cl := cl
 		client := &sse.Client{HTTPClient: &http.Client{Transport: &e2eRT{w, cl}}, Backoff: b}
@@ -504,9 +510,19 @@ func (w *e2eWorld) build() {
 			cl.checkSafety()
 		})
 		sim.Spawn(fmt.Sprintf("connect%d", cl.id), func() {
-			cl.connectErr = cl.conn.Connect()
+			for calls := 1; ; calls++ {
+				cl.connectErr = cl.conn.Connect()
+				sim.Logf("Connect", "client%d call %d returned %v", cl.id, calls, cl.connectErr)
+				var ce *sse.ConnectionError
+				if !appLoop || cl.ctx.Err() != nil || calls >= 40 || (errors.As(cl.connectErr, &ce) && ce.Reason == "response validation failed") {
+					break
+				}
+				w.o.probe("Connect called again on the same Connection")
+				if ch.Chance(1, 2, "application waits before reconnecting") {
+					sim.Sleep("application back-off", []time.Duration{time.Millisecond, time.Second}[ch.Intn(2, "application wait")])
+				}
+			}
 			cl.connectRet = true
-			sim.Logf("Connect", "client%d returned %v", cl.id, cl.connectErr)
 		})
 	}
 	for i, list := range w.pubs {
